@@ -29,7 +29,9 @@ def spec(tick, unit, **kw):
 
 def sessions(emb):
     base, tick, unit = emb
-    word = ['U1', 'D2w', 'U2w', 'D1', 'U2w', 'GU', 'D2w', 'U1', 'D2w', 'U2w', 'D1', 'U1']
+    # gaps (open != previous close) at indices 6, 9, 12 - chunk boundaries of the 3m sessions - and elsewhere: the simulators
+    # normalise such opens, which must happen on a private copy of the caller's arrays
+    word = ['U1', 'D2w', 'U2w', 'GU', 'U2w', 'D1', 'GD', 'GU', 'D2w', 'GU', 'D1', 'U1']
     rows = S.make_candles([progs.SHAPES['FLAT']] * 3 + progs.shapes(word), base + 30 * tick, tick).tolist()
     bal = 50 * (base + 30 * tick) * unit
     b = {'cfg': {'type': 'futures', 'fee': 0.001, 'leverage': 2, 'mode': 'cross', 'balance': bal}, 'routes': [{'symbol': 'BTC-USDT', 'timeframe': '1m', 'spec': spec(tick, unit)}],
